@@ -105,6 +105,12 @@ def unwrap_prob(pe, ex):
         return unwrap_prob(inner, ex)
     if pe is None:
         raise AnalysisError('probability vector has no definition on the executed path')
+    # np.clip(P, 0, 1): round-off kept inside [0, 1]; a probability vector is unchanged by it
+    if isinstance(pe, ast.Call) and U(pe.func).split('.')[-1] == 'clip' and len(pe.args) == 3 and not pe.keywords \
+            and U(pe.args[1]) in ('0', '0.0') and U(pe.args[2]) in ('1', '1.0'):
+        x = pe.args[0]
+        inner = resolve(x, ex, skip=1 if isinstance(x, ast.Name) and ex.defs.get(x.id) is pe else 0)
+        return unwrap_prob(inner, ex)
     # a module-level helper with a single return: inline its body (normalize(logits) -> exp(logits)/sum ...)
     if isinstance(pe, ast.Call) and isinstance(pe.func, ast.Name) and pe.func.id in ex.fi.module.funcs:
         h = ex.fi.module.funcs[pe.func.id]
